@@ -285,6 +285,12 @@ def check_op(case) -> list[Fail]:
             except Exception as e:  # noqa: BLE001
                 fails.append(Fail("attr-eq", f"op:{k}:{a}", f"raises {type(e).__name__}"))
                 continue
+            if a == "instantiation":
+                # expected: the instantiation of the original op in opaque form (substituting into
+                # the already-opaque signature would keep stale from-params bounds)
+                if dump(va._to_serial_root()) != dump(x.instantiation._to_serial_root()):
+                    fails.append(Fail("attr-eq", f"op:{k}:{a}", f"decoded={va!r} expected={x.instantiation!r}"[:300]))
+                continue
             if a == "val":
                 if not val_equal(va, vb):
                     fails.append(Fail("attr-eq", f"op:{k}:{a}", f"decoded={va!r} expected={vb!r}"[:300]))
